@@ -8,16 +8,16 @@ SETUP = f"mkdir -p /verif/bin && cd /verif/harness && {ENV} go build -o /verif/b
 # id -> (category, technique, text, level_note, design_ref)
 CHECKS = {
  "C01": ("exploration", "runtime reference-model monitor: every ring op executed on boundary-pattern inputs and compared lane by lane with exact 128-bit/naive-convolution models",
-         "Every SubRing/Ring/ringqp op, both NTT transformers, automorphisms and monomial products are executed on (ring type x logN x prime size 7..61 bits x prime position x input pattern x extreme lane) and each output lane is compared with an exact model; ranges are checked where documented. Sampled, not exhaustive in prime values.",
+         "Every SubRing/Ring/ringqp op, both NTT transformers, automorphisms (incl. Galois elements given by unreduced representatives g+k*2N) and monomial products are executed on (ring type x logN x prime size 7..61 bits x prime position x input pattern x extreme lane) and each output lane is compared with an exact model; ranges are checked where documented. Sampled, not exhaustive in prime values.",
          "trusts bits.Mul64/Div64 + math/big as the model; input domains for undocumented ops are the narrowest in-tree callers use", "4/C01"),
  "C02": ("exploration", "runtime reference-model monitor: rescaling, basis extension and RNS decomposition executed on divisor-boundary inputs and compared coefficient-wise with math/big integer division / centred lifting / gadget recombination",
          "All DivFloor/DivRound(Many)(NTT) variants for every level and number of consecutive rescalings, ModUpQtoP/PtoQ and ModDownQPtoQ(NTT)/QPtoP for every (levelQ, levelP) pair, Decomposer.DecomposeAndSplit for every digit, rlwe.Evaluator.DecomposeNTT recombination against the RNS gadget vector, and the small-norm centred extension, on chains of 1..6 Q primes and 0..3 P primes of unequal sizes; boundary-heavy inputs; sampled chains.",
          "trusts math/big; allowed slack is exactly the one the property states (one multiple of the source modulus for ModUp, 1 for ModDown, same offset on every output modulus)", "4/C02"),
  "C03": ("exploration", "runtime monitor with secret-key observation: every encryption/key component is decrypted by the harness and its exact centred error vector is compared with worst-case upper and statistical lower bounds",
-         "Accepted rlwe literals (both ring types, 1..4 Q / 0..2 P primes of mixed sizes, 8 secret and 5 error distributions) x every level x sk/pk x encryptor variants (ShallowCopy, WithKey, WithPRNG) x degree 0/1/2 x IsNTT x IsMontgomery: metadata equality, exact noise vector vs worst-case bound, pooled std in [nominal/2, 2 nominal], distinct errors/ciphertexts on re-encryption, unreadability under an independent key; every component of public, relinearisation, Galois and generic evaluation keys (incl. compressed+Expand, all (LevelQ, LevelP), power-of-two digits) is checked to be an encryption of exactly its gadget payload with error <= the truncation bound.",
+         "Accepted rlwe literals (both ring types, 1..4 Q / 0..2 P primes of mixed sizes, 8 secret and 5 error distributions) x every level x sk/pk x encryptor variants (ShallowCopy, WithKey, WithPRNG) x degree 0/1/2 x IsNTT x IsMontgomery: metadata equality, exact noise vector vs worst-case bound, pooled std in [nominal/2, 2 nominal], distinct errors/ciphertexts on re-encryption and across encryptors derived from one another (ShallowCopy, WithKey, copy of a copy), unreadability under an independent key, error distributions with tail cuts inside 6 sigma; every component of public, relinearisation, Galois and generic evaluation keys (incl. compressed+Expand, all (LevelQ, LevelP), power-of-two digits) is checked to be an encryption of exactly its gadget payload with error <= the truncation bound.",
          "ring arithmetic used for c0+c1*s is trusted from C01; lower bounds only see >2x deviations of sigma; Element[ringqp.Poly] targets are observed through key generation only", "4/C03"),
  "C04": ("exploration", "runtime monitor with secret-key observation: after every key-switching entry point the phase under the target key is compared with the exactly transformed plaintext against a worst-case decomposition-derived noise bound",
-         "Parameter sets with 1..6 Q and 0..3 P primes of mixed sizes, both ring types, 5 secret distributions; evaluation-key parameters (LevelQ, LevelP, w in 0..30, Compressed) drawn per case; ApplyEvaluationKey, Relinearize, Automorphism, AutomorphismHoisted(Lazy), GadgetProduct, GadgetProductLazy, GadgetProductHoisted(Lazy)+ModDown on ciphertexts at levels <= key level, NTT and coefficient domain; compressed keys: Expand determinism and equality with the keyed uniform stream; missing keys must give errors. Ring-degree switching (small<->large), the standard/conjugate-invariant swap (ckks.DomainSwitcher, both directions) and RingPackingEvaluator (Split/Merge/Expand/Pack/Extract(Naive)/Repack(Naive)) are judged the same way against exact coefficient models.",
+         "Parameter sets with 1..6 Q and 0..3 P primes of mixed sizes (plus 10..16 small Q primes under 61-bit P), key LevelP from -1 to the maximum, both ring types, 5 secret distributions; evaluation-key parameters (LevelQ, LevelP, w in 0..30, Compressed) drawn per case; ApplyEvaluationKey, Relinearize, Automorphism, AutomorphismHoisted(Lazy), GadgetProduct, GadgetProductLazy, GadgetProductHoisted(Lazy)+ModDown on ciphertexts at levels <= key level, NTT and coefficient domain; compressed keys: Expand determinism and equality with the keyed uniform stream; missing keys must give errors. Ring-degree switching (small<->large), the standard/conjugate-invariant swap (ckks.DomainSwitcher, both directions) and RingPackingEvaluator (Split/Merge/Expand/Pack/Extract(Naive)/Repack(Naive)) are judged the same way against exact coefficient models.",
          "worst-case bounds are loose by design (no false alarm possible from noise); only defects that push noise towards Q_level are visible", "4/C04"),
  "C07": ("exploration", "runtime reference-model monitor: encoders/decoders executed on boundary-heavy message vectors and compared with exact Z_t models and an independent arbitrary-precision canonical embedding",
          "BGV: every level x batched/coefficient x IsNTT x uint64/int64 x boundary patterns x lengths x scales, exact residues, signed range, zero padding, decode under maximal admissible noise, product of encodings, Embed into ring.Poly/ringqp.Poly; CKKS: both rings, all LogDimensions, 8 precisions, 4 input and output types, Encode/Embed/Decode/DecodePublic/FFT/IFFT against an O(n^2) big-float embedding with the rounding + working-precision bound. 8 genuine defects recorded as known findings.",
@@ -45,7 +45,7 @@ CHECKS = {
          "All 61 exported copy constructors (ring, rlwe, rgsw, bgv, ckks, multiparty, bootstrapping, lintrans/polynomial evaluators) on boundary and random parameter sets: scalar/table equality, no dropped field, re-allocated scratch not smaller, deep copies share no memory and survive bit-flipping of the other side; sequential original/copy/copy-of-copy results equal the reference bit for bit (deterministic objects) or functionally (randomised ones); race/ cases run 2..16 goroutines (one copy each) at GOMAXPROCS 2/4/16 with results compared to the sequential reference and detector reports deduplicated by entry-point pair.",
          "interleavings are sampled; the race detector only sees the accesses the workload makes; fields the workload never touches are covered structurally only", "4/C10"),
  "C11": ("exploration", "runtime reference-model monitor: Galois-element algebra against a math/big model (exhaustive for small rings), rotations/sums/traces judged in the phase domain against the coefficient automorphism model with worst-case key-switch bounds, evaluators holding exactly the advertised keys",
-         "std and CI rings logN 4..11, ckks/bgv/rlwe, all k in [-2 slots, 2 slots] for small rings plus k near 2^62/2^63, plain/hoisted/lazy variants, every (batch, n) for <= 64 slots, Trace for every logN; missing-key errors with exactly the advertised Galois elements are violations.",
+         "std and CI rings logN 4..11, ckks/bgv/rlwe, all k in [-2 slots, 2 slots] for small rings plus k near 2^62/2^63, plain/hoisted/lazy variants, every (batch, n) for <= 64 slots, dense counts n = 2^k-1 up to 4095 under a 61-bit auxiliary prime, Trace for every logN; missing-key errors with exactly the advertised Galois elements are violations.",
          "Trace in the CI ring not judged; hoisted ops only with P; CKKS slot tolerances are worst-case", "4/C11"),
  "C13": ("exploration", "runtime reference-model monitor: homomorphic polynomial evaluation compared slot-wise with Horner/Chebyshev evaluation (exact mod t, 320-bit floats for CKKS), exact depth and output scale, composite circuits on their documented domains",
          "bgv (standard and scale-invariant) and ckks (std/CI, one or two primes per rescale): every degree 1..9, 2^k-1/2^k/2^k+1 and random degrees up to the depth, 9 coefficient shapes, Polynomial / PolynomialVector with disjoint mappings / power basis (fresh, precomputed, serialised), input level min..max, non-default input and target scales; sign/step/max/min/inverse/mod1 circuits; bignum plaintext tools.",
@@ -66,7 +66,7 @@ CHECKS = {
          "~3500 literals per quick run (one mutation each over sizes 2..63 bits, duplicates, composites, non-NTT-friendly primes, LogN bounds, t classes, root orders), GenModuli/prime generator for every size x root order, JSON/binary round trips for rlwe/bgv/ckks/bootstrapping, ~40 accessors, shipped sets' log2(QP) vs HE-standard / eprint 2022/024 table.",
          "128-bit security is judged against a table, not an estimator; growth inside the tabulated envelope is invisible", "4/C19"),
  "C20": ("exploration", "runtime monitor with secret-key observation: RGSW rows decrypted, external products compared with m*g and with the exact gadget sum, RGSW algebra row by row, blind rotations compared with the exact rotation model X^k*F and the drift window",
-         "logN 4..10, 1..10 Q primes incl. the 32-bit fast path and >= 8 digits, 0..3 P, w 0..30, in place / out of place into garbage / after unrelated product; blind rotation N_LWE 2^4..2^9, 10 key shapes, 6 secret weights, 5 functions on 6 intervals, all grid points for small N_LWE, key-request recording.",
+         "logN 4..10, 1..22 Q primes incl. the 32-bit fast path, >= 8 digits and many small primes under 61-bit auxiliary primes, 0..3 P, w 0..30, in place / out of place into garbage / after unrelated product; blind rotation N_LWE 2^4..2^9, 10 key shapes, 6 secret weights, 5 functions on 6 intervals, all grid points for small N_LWE, key-request recording.",
          "RGSW public-key encryption and non-NTT inputs not exercised (undocumented)", "4/C20"),
 }
 ALL = [f"C{i:02d}" for i in range(1, 21)]
